@@ -360,23 +360,52 @@ def _siblings(run, P):
             run.holds("F-TABLE/dual-siblings", c, where(f, g[0]), "duplicate nodes raise")
         else:
             run.violation("F-TABLE/dual-siblings", c, where(f), "the duplicate-node guard is missing or tests another grid")
-        # construction
+        # construction: in the method itself, or in a package function the method hands its grid to (a helper shared by the three siblings)
+        from ..loader import FuncInfo
         c = f"{f.key}:construction"
-        cd = next((n for n in ast.walk(f.node) if isinstance(n, ast.Call) and (dotted(n.func) or [""])[-1] == "construct_dual"), None)
-        ft = next((n for n in ast.walk(f.node) if isinstance(n, ast.Call) and isinstance(n.func, ast.Attribute) and n.func.attr == "from_topology"), None)
-        probs = []
-        if cd is None or not any(k.arg == "grid" and norm(k.value) == gexpr for k in cd.keywords) and not (cd.args and norm(cd.args[0]) == gexpr):
-            probs.append("construct_dual is not applied to this object's grid")
-        if ft is None:
-            probs.append("from_topology not called")
+        cands = [(f, gexpr)]
+        for n in ast.walk(f.node):
+            if isinstance(n, ast.Call):
+                t = P.resolve_expr(f.module, n.func, f)
+                if isinstance(t, FuncInfo) and t.cls is None:
+                    for i, a_ in enumerate(n.args):
+                        if norm(a_) == gexpr and i < len(t.params()):
+                            cands.append((t, t.params()[i]))
+        verdict = None
+        for h, ge in cands:
+            cd = next((n for n in ast.walk(h.node) if isinstance(n, ast.Call) and (dotted(n.func) or [""])[-1] == "construct_dual"), None)
+            ft = next((n for n in ast.walk(h.node) if isinstance(n, ast.Call) and isinstance(n.func, ast.Attribute) and n.func.attr == "from_topology"), None)
+            if cd is None and ft is None:
+                continue
+            probs = []
+            if cd is None or not any(k.arg == "grid" and norm(k.value) == ge for k in cd.keywords) and not (cd.args and norm(cd.args[0]) == ge):
+                probs.append("construct_dual is not applied to this object's grid")
+            if ft is None:
+                probs.append("from_topology not called")
+            else:
+                from ..astutil import Resolver
+                RZh = Resolver(h.node)
+                bound = [RZh.norm(x) for x in ft.args]
+                kws = {k.arg: RZh.norm(k.value) for k in ft.keywords if k.arg}
+                lon = bound[0] if bound else kws.get("node_lon")
+                lat = bound[1] if len(bound) > 1 else kws.get("node_lat")
+                conn = bound[2] if len(bound) > 2 else kws.get("face_node_connectivity")
+                if [lon, lat] != [f"{ge}.face_lon.values", f"{ge}.face_lat.values"]:
+                    probs.append(f"dual nodes built from {[lon, lat]}: expected the primal face centres (face_lon, face_lat) in that order")
+                from ..astutil import LocalDefs
+                conn_ok = conn is not None and ("dual_node_face_conn" in conn or "construct_dual" in conn or any(isinstance(x, ast.Call) and (dotted(x.func) or [""])[-1] == "construct_dual"
+                                                                                       for e in LocalDefs(h.node).closure(ast.parse(conn, mode="eval").body)[0] for x in ast.walk(e)))
+                if not conn_ok:
+                    probs.append("dual connectivity not passed")
+            verdict = (h, ft or cd, probs)
+            break
+        if verdict is None:
+            if len(cands) > 1:
+                run.incomplete("F-TABLE/dual-siblings", c, where(f), "the construction of the dual grid is delegated to a function this rule does not read")
+            else:
+                run.violation("F-TABLE/dual-siblings", c, where(f), "construct_dual is not applied to this object's grid; from_topology not called")
+        elif verdict[2]:
+            run.violation("F-TABLE/dual-siblings", c, where(verdict[0], verdict[1]), "; ".join(verdict[2]))
         else:
-            a = [norm(x) for x in ft.args]
-            if a[:2] != [f"{gexpr}.face_lon.values", f"{gexpr}.face_lat.values"]:
-                probs.append(f"dual nodes built from {a[:2]}: expected the primal face centres (face_lon, face_lat) in that order")
-            if len(a) < 3 or "dual_node_face_conn" not in a[2]:
-                probs.append("dual connectivity not passed")
-        if probs:
-            run.violation("F-TABLE/dual-siblings", c, where(f), "; ".join(probs))
-        else:
-            run.holds("F-TABLE/dual-siblings", c, where(f, ft), "dual = from_topology(face_lon, face_lat, construct_dual(grid))")
+            run.holds("F-TABLE/dual-siblings", c, where(verdict[0], verdict[1]), "dual = from_topology(face_lon, face_lat, construct_dual(grid))")
     _get_dual_dims(run, P, partial_rule=False)
